@@ -51,6 +51,7 @@ type PathResult struct {
 	Sample     *ObligationSample
 	EvalSat    int
 	Witness    bool
+	Implicit   int64 // implicit Go safety conditions checked (index, slice bounds, nil dereference, type assertion)
 }
 
 type ObligationSample struct {
@@ -585,6 +586,7 @@ type HarnessResult struct {
 	Violations          []Violation
 	Samples             []ObligationSample
 	Witnesses           int
+	Implicit            int64
 	Funcs               map[string]bool
 	Solver              SolverStats
 	Wall                time.Duration
@@ -704,6 +706,7 @@ func mergePath(res *HarnessResult, m *Machine) {
 	res.Proved += r.Proved
 	res.Unknown += r.Unknown
 	res.NInstr += m.nInstr
+	res.Implicit += r.Implicit
 	if r.Witness {
 		res.Witnesses++
 	}
